@@ -1,6 +1,24 @@
 HOOK_COMMITS = []
 NOT_APPLICABLE = {}
 META = {
+    "C04": dict(
+        engine="E4 udp",
+        technique="Lean 4 invariant (NatInv) proved by induction over all histories of the NAT-table model (unbounded clients and steps); model tied by differential correspondence with the real packet handler",
+        text="Kernel-checked for every reachable state: one association per client address, one socket per association, fresh never-reused socket identities, live sockets not closed; forwarded datagrams of a known client leave from its socket; a reply read on a socket goes only to its owner; associations are created only by authenticated datagrams with a validated destination.",
+        note="Trusted: Lean kernel; hand model validated differentially (source ports observed at real targets, bijection built on the fly); kernel port uniqueness is a contract.",
+    ),
+    "C14": dict(
+        engine="E4 udp + natconn",
+        technique="Lean 4 invariants over write/read histories with a logical clock (J: socket deadline in sync or expired; A: fast-close latch), generated 17 s / port 53 constants; tied by differential correspondence with the real natconn over a recording PacketConn and the real handler",
+        text="Kernel-checked: every client datagram handled on a live or new association leaves the socket deadline >= now+timeout (non-DNS) / now+17 s (DNS) for any configured timeout; client datagrams never move the deadline earlier; fast close fires iff the latch is armed and the response is from the DNS port, the latch being armed only after at most one DNS query; removal reported exactly once, socket closed, entry removed.",
+        note="Partial for real time: 'within bounded time' and 'promptly' are observed by the campaigns (shutdown expires all associations, fast close within 1.5 s), not proved. Trusted: Lean kernel, hand models, verif hook file.",
+    ),
+    "C16": dict(
+        engine="E4 udp",
+        technique="Lean 4 theorems on the effect traces of the UDP model (exhaustive case characterisation `upstream_cases`, counting invariant added = removed + live by induction over histories); differential correspondence on metric calls with the real handler; socket-level byte sums as oracle",
+        text="Kernel-checked: a client datagram is reported exactly once iff it creates or arrives on an association, with wire size and the payload size actually written (OK iff written); associations are added with the id of an entry whose key opened the datagram; target datagrams reported once; over every history added = removed + live.",
+        note="Handler side proved; the Prometheus collector side (counter vectors) is covered by the metrics engine. Trusted: Lean kernel, hand model validated differentially.",
+    ),
     "C03": dict(
         engine="E4 udp",
         technique="Lean 4 theorems on the packet-handler model (decision logic of Handle/validatePacket, in-place buffer arithmetic of timedCopy by omega); model tied by differential correspondence with the real handler over real sockets",
